@@ -46,6 +46,19 @@ type hclient struct {
 	lastPkt []byte
 	ackPkt  []byte            // wire bytes of the latest datagram that was echoed on its first transmission
 	sent    map[uint32][2]int // seq -> (dest, fill) of the first transmission
+	// extraTries: transmissions the next paced datagram may use on top of the usual ones - one per datagram
+	// this socket sent into a set-up that fails (each may leave a dying entry that rightly swallows one datagram)
+	extraTries int
+}
+
+// AddTries / TakeTries manage the credit described at extraTries.
+func (c *hclient) AddTries(n int) { c.mu.Lock(); c.extraTries += n; c.mu.Unlock() }
+func (c *hclient) TakeTries() int {
+	c.mu.Lock()
+	defer c.mu.Unlock()
+	n := c.extraTries
+	c.extraTries = 0
+	return n
 }
 
 // newHClient opens the first socket of a session; server is the relay address it talks to first.
